@@ -92,53 +92,65 @@ FS = "Tracked(fs): Tracked<&mut Fs>"
 FS_RO = "Tracked(fs): Tracked<&Fs>"
 DIR_ARG = "Ghost(pbid(self.key_dir))"
 
-# ---- contracts of the key-keeper actor wrapper methods (ASSUMED: one atomic operation on the abstract state each) -------
-def rule_id_contract(e):
+# ---- contracts of the one-message wrapper methods of KeyKeeperSharedState (ASSUMED: one atomic actor operation each;
+#      the arms of the actor loop are decided in unit `actors`). Single writer (census): the state is not havocked.
+def msg_get_contract(expr):
+    return """
+        ensures
+            r matches Ok(v) ==> %s && *final(a) == *old(a),
+            r is Err ==> *final(a) == old(a).read_failed(),
+""" % expr
+
+
+def msg_set_contract(new_s, mut):
+    return """
+        ensures
+            r is Ok ==> *final(a) == old(a).did(%(s)s, %(m)s),
+            r is Err ==> *final(a) == old(a).call_failed(final(a).s, %(m)s),
+""" % dict(s=new_s, m=mut)
+
+
+# ---- contracts of the composite wrapper methods (read, compare, write): PROVED here from the one-message contracts ----
+def rule_id_contract(e, f):
     return """
         ensures
             r matches Ok(p) ==> p.0 == (old(a).s.rule_id(Endpoint::%(e)s) != rule_id@) && p.1@ == old(a).s.rule_id(Endpoint::%(e)s)
-                && *final(a) == old(a).did(old(a).s.with_rule_id(Endpoint::%(e)s, rule_id@), Mut::RuleId(Endpoint::%(e)s, rule_id@)),
-            r is Err ==> *final(a) == old(a).call_failed(final(a).s, Mut::RuleId(Endpoint::%(e)s, rule_id@)),
-""" % dict(e=e)
+                && *final(a) == (if p.0 { old(a).did(old(a).s.with_rule_id(Endpoint::%(e)s, rule_id@), Mut::RuleId(Endpoint::%(e)s, rule_id@)) } else { *old(a) }),  // @C09.%(f)s.writes_the_id_iff_it_differs
+            r is Err ==> final(a).failed,
+            final(a).muts == old(a).muts || final(a).muts == old(a).muts.push(Mut::RuleId(Endpoint::%(e)s, rule_id@)),
+""" % dict(e=e, f=f)
 
 
 def set_rules_contract(e):
-    return """
-        ensures
-            r is Ok ==> *final(a) == old(a).did(old(a).s.with_rules(Endpoint::%(e)s, computed_opt(rules)), Mut::Rules(Endpoint::%(e)s)),
-            r is Err ==> *final(a) == old(a).call_failed(final(a).s, Mut::Rules(Endpoint::%(e)s)),
-""" % dict(e=e)
+    return msg_set_contract("old(a).s.with_rules(Endpoint::%s, computed_opt(rules))" % e, "Mut::Rules(Endpoint::%s)" % e)
 
 
 def get_rules_contract(e):
-    return """
-        ensures
-            r matches Ok(v) ==> v == old(a).s.rules(Endpoint::%(e)s) && *final(a) == *old(a),
-            r is Err ==> *final(a) == old(a).read_failed(),
-""" % dict(e=e)
+    return msg_get_contract("v == old(a).s.rules(Endpoint::%s)" % e)
 
 
 KEY_GUID_CONTRACT = """
         ensures
-            r matches Ok(g) ==> guid_reply(g, old(a).s.key) && *final(a) == *old(a),
+            r matches Ok(g) ==> guid_reply(g, old(a).s.key) && *final(a) == *old(a),  // @C09.get_current_key_guid.guid_of_the_actors_key
             r is Err ==> *final(a) == old(a).read_failed(),
 """
 UPDATE_KEY_CONTRACT = """
         requires may_publish(*fs, *h, dir, key),  // @C08.update_key.only_an_attested_or_locally_found_key_is_published
         ensures
-            r is Ok ==> *final(a) == old(a).did(KkState { key: Some(key), ..old(a).s }, Mut::SetKey),
-            r is Err ==> *final(a) == old(a).call_failed(final(a).s, Mut::SetKey),
+            r is Ok ==> *final(a) == old(a).did(KkState { key: Some(key), ..old(a).s }, Mut::Key(Some(key))),
+            r is Err ==> *final(a) == old(a).call_failed(final(a).s, Mut::Key(Some(key))),
 """
 CLEAR_KEY_CONTRACT = """
         ensures
-            r is Ok ==> *final(a) == old(a).did(KkState { key: None, ..old(a).s }, Mut::ClearKey),
-            r is Err ==> *final(a) == old(a).call_failed(final(a).s, Mut::ClearKey),
+            r is Ok ==> *final(a) == old(a).did(KkState { key: None, ..old(a).s }, Mut::Key(None)),
+            r is Err ==> *final(a) == old(a).call_failed(final(a).s, Mut::Key(None)),
 """
 UPDATE_STATE_CONTRACT = """
         ensures
             r matches Ok(updated) ==> updated == (old(a).s.state != state@)
-                && *final(a) == old(a).did(KkState { state: state@, ..old(a).s }, Mut::State(state@)),
-            r is Err ==> *final(a) == old(a).call_failed(final(a).s, Mut::State(state@)),
+                && *final(a) == (if updated { old(a).did(KkState { state: state@, ..old(a).s }, Mut::State(state@)) } else { *old(a) }),  // @C09.update_current_secure_channel_state.writes_the_state_iff_it_differs
+            r is Err ==> final(a).failed,
+            final(a).muts == old(a).muts || final(a).muts == old(a).muts.push(Mut::State(state@)),
 """
 GET_STATUS_CONTRACT = """
         ensures
@@ -189,7 +201,7 @@ POLL_CONTRACT = """
             final(h).status is Some && !final(a).failed ==> rules_step(old(a).s, final(a).s, final(h).status->0, Endpoint::Imds),  // @C09.poll.imds_rules_follow_the_document
             final(h).status is Some && !final(a).failed ==> rules_step(old(a).s, final(a).s, final(h).status->0, Endpoint::HostGA),  // @C09.poll.hostga_rules_follow_the_document
             // ---- a complete iteration
-            final(h).completed ==> final(h).status is Some,
+            final(h).completed ==> final(h).status is Some,  // @C09.poll.complete_iteration_had_a_valid_document
             final(h).completed && !final(a).failed ==> final(a).s.state == sc_state(final(h).status->0),  // @C09.poll.state_is_the_documents_channel_state
             final(h).completed && !final(a).failed && old(a).s.disabled_means_no_key() ==> final(a).s.disabled_means_no_key(),  // @C09.poll.disabled_means_no_key
             final(h).completed && !final(a).failed && !channel_disabled(final(h).status->0) ==> final(a).s.key is Some,  // @C09.poll.enabled_channel_has_a_key
@@ -201,7 +213,7 @@ POLL_CONTRACT = """
             !final(h).completed ==> final(rd).updates == Seq::<(Endpoint, bool)>::empty(),  // @C09.poll.no_redirect_update_on_early_exit
             !final(h).completed && !final(a).failed ==> final(a).s.key == old(a).s.key && final(a).s.state == old(a).s.state,  // @C08.poll.failed_step_leaves_key_and_state_unchanged
             // ---- host protocol
-            final(h).attest_calls <= 1 && final(h).acquire_calls <= 1,
+            final(h).attest_calls <= 1 && final(h).acquire_calls <= 1,  // @C08.poll.at_most_one_acquire_and_one_attest_per_iteration
             final(h).attest_calls == 1 ==> final(h).acquire_calls == 1 && final(h).acquired is Some,  // @C08.poll.attest_only_follows_acquire
 """
 
@@ -248,6 +260,74 @@ use std::{path::PathBuf, time::Duration};
 use tokio_util::sync::CancellationToken;"""
 
 
+MUTATORS = ("update_key", "clear_key", "set_key", "update_current_secure_channel_state", "set_secure_channel_state",
+            "update_wireserver_rule_id", "update_imds_rule_id", "update_hostga_rule_id", "set_wireserver_rule_id", "set_imds_rule_id", "set_hostga_rule_id",
+            "set_wireserver_rules", "set_imds_rules", "set_hostga_rules")
+COMPOSITE = {"update_key": {"set_key"}, "clear_key": {"set_key"}, "update_current_secure_channel_state": {"set_secure_channel_state"},
+             "update_wireserver_rule_id": {"set_wireserver_rule_id"}, "update_imds_rule_id": {"set_imds_rule_id"}, "update_hostga_rule_id": {"set_hostga_rule_id"}}
+
+
+def census(u, kk, kkw):
+    """rely/guarantee (DESIGN 2.3): the key-keeper actor has a SINGLE WRITER. Every mutating wrapper method of
+    KeyKeeperSharedState is called (outside #[cfg(test)] items) only from KeyKeeper::loop_poll; inside the wrapper file only
+    by the composite method that is under contract here. Otherwise the unit is UNDECIDED (the no-havoc model no longer applies)."""
+    pat = re.compile(r"\.\s*(%s)\s*\(" % "|".join(MUTATORS))
+    root = os.path.join(u.repo.root, "proxy_agent", "src")
+    for dp, dn, fn in os.walk(root):
+        for f in sorted(fn):
+            if not f.endswith(".rs"):
+                continue
+            rel = os.path.relpath(os.path.join(dp, f), u.repo.root)
+            sf = u.src(rel) if rel in (kk.rel, kkw.rel) else None
+            if sf is None:
+                try:
+                    sf = u.repo.src(rel)
+                except Undecided:
+                    # a file vx cannot parse: fall back to a textual scan of the whole file
+                    txt = open(os.path.join(dp, f), encoding="utf-8").read()
+                    code = "\n".join(l for l in txt.split("\n") if not l.strip().startswith("//"))
+                    if pat.search(code):
+                        raise Undecided("census: %s (unparsed) mentions a mutating KeyKeeperSharedState method" % rel)
+                    continue
+            for it in sf.all_fns():          # SrcFile drops #[cfg(test)] / #[cfg(windows)] items
+                if it["path"].startswith("tests::") or it.get("body") is None:
+                    continue
+                txt = sf.s(it["body"][0], it["body"][1])
+                code = "\n".join(l for l in txt.split("\n") if not l.strip().startswith("//"))
+                for m in pat.finditer(code):
+                    callee = m.group(1)
+                    if rel == kk.rel and it["path"] == "KeyKeeper::loop_poll":
+                        continue
+                    if rel == kkw.rel and it["name"] in COMPOSITE and callee in COMPOSITE[it["name"]]:
+                        continue
+                    raise Undecided("census: %s fn %s calls the mutating key-keeper method %s; the single-writer argument of C09 no longer covers every caller" % (rel, it["path"], callee))
+    u.rule("census", "mutating KeyKeeperSharedState methods are called only from key_keeper.rs::KeyKeeper::loop_poll (non-test code of proxy_agent/src)")
+
+
+def brace_block(sf, start):
+    """byte range (open, close+1) of the brace block whose `{` is the first one at or after byte `start` (string / char
+    literals and comments skipped)"""
+    b = sf.b
+    i = b.index(b"{", start)
+    depth, j = 0, i
+    while j < len(b):
+        c = b[j:j + 1]
+        if c == b'"':
+            j += 1
+            while b[j:j + 1] != b'"':
+                j += 2 if b[j:j + 1] == b"\\" else 1
+        elif b[j:j + 2] == b"//":
+            j = b.index(b"\n", j)
+        elif c == b"{":
+            depth += 1
+        elif c == b"}":
+            depth -= 1
+            if depth == 0:
+                return i, j + 1
+        j += 1
+    raise Undecided("unbalanced braces in %s" % sf.rel)
+
+
 def build(u):
     u.externs.append("serde_derive")
     u.features += ["allocator_api"]
@@ -270,6 +350,7 @@ def build(u):
     tw = u.src("proxy_agent/src/shared_state/telemetry_wrapper.rs")
     rl = u.src("proxy_agent/src/redirector/linux.rs")
     acl = u.src("proxy_agent/src/acl.rs")
+    census(u, kk, kkw)
     for f in ("str_axioms.rs", "ext_types.rs", "std_string.rs"):
         u.raw(open(os.path.join(COMMON, f)).read())
     for f in ("fs_spec.rs", "deps.rs", "spec.rs"):
@@ -337,23 +418,42 @@ def build(u):
         with u.mod("key_keeper_wrapper", uses="use crate::common::result::Result;\nuse crate::key_keeper::key::{AuthorizationItem, Key};\nuse crate::proxy::authorization_rules::ComputedAuthorizationItem;"):
             u.placeholder_ext(kkw, ["KeyKeeperSharedState"], "vx_ph_kkw")
             with u.impl_(kkw, "KeyKeeperSharedState"):
-                for (f, e) in (("update_wireserver_rule_id", "WireServer"), ("update_imds_rule_id", "Imds"), ("update_hostga_rule_id", "HostGA")):
-                    u.take_fn(kkw, "KeyKeeperSharedState::" + f, external_body=True, ghost=A_, contract=rule_id_contract(e))
-                for (f, e) in (("set_wireserver_rules", "WireServer"), ("set_imds_rules", "Imds"), ("set_hostga_rules", "HostGA")):
-                    u.take_fn(kkw, "KeyKeeperSharedState::" + f, external_body=True, ghost=A_, contract=set_rules_contract(e))
-                for (f, e) in (("get_wireserver_rules", "WireServer"), ("get_imds_rules", "Imds"), ("get_hostga_rules", "HostGA")):
-                    u.take_fn(kkw, "KeyKeeperSharedState::" + f, external_body=True, ghost=A_, contract=get_rules_contract(e))
-                u.take_fn(kkw, "KeyKeeperSharedState::get_current_key_guid", external_body=True, ghost=A_, contract=KEY_GUID_CONTRACT)
-                u.take_fn(kkw, "KeyKeeperSharedState::update_key", external_body=True, ghost=FS_RO + ", " + H_RO + ", " + A_ + ", " + DIR_, contract=UPDATE_KEY_CONTRACT)
-                u.take_fn(kkw, "KeyKeeperSharedState::clear_key", external_body=True, ghost=A_, contract=CLEAR_KEY_CONTRACT)
-                u.take_fn(kkw, "KeyKeeperSharedState::update_current_secure_channel_state", external_body=True, ghost=A_, contract=UPDATE_STATE_CONTRACT)
+                WPRE = "broadcast use axiom_string_obeys_eq_spec, axiom_string_eq_spec;"
+                # one-message methods: stubs
+                u.take_fn(kkw, "KeyKeeperSharedState::set_key", external_body=True, ghost=A_, contract=msg_set_contract("KkState { key: key, ..old(a).s }", "Mut::Key(key)"))
+                u.take_fn(kkw, "KeyKeeperSharedState::get_key", external_body=True, ghost=A_, contract=msg_get_contract("v == old(a).s.key"))
+                u.take_fn(kkw, "KeyKeeperSharedState::set_secure_channel_state", external_body=True, ghost=A_, contract=msg_set_contract("KkState { state: state@, ..old(a).s }", "Mut::State(state@)"))
+                u.take_fn(kkw, "KeyKeeperSharedState::get_current_secure_channel_state", external_body=True, ghost=A_, contract=msg_get_contract("v@ == old(a).s.state"))
+                for (n, e) in (("wireserver", "WireServer"), ("imds", "Imds"), ("hostga", "HostGA")):
+                    u.take_fn(kkw, "KeyKeeperSharedState::set_%s_rule_id" % n, external_body=True, ghost=A_,
+                              contract=msg_set_contract("old(a).s.with_rule_id(Endpoint::%s, rule_id@)" % e, "Mut::RuleId(Endpoint::%s, rule_id@)" % e))
+                    u.take_fn(kkw, "KeyKeeperSharedState::get_%s_rule_id" % n, external_body=True, ghost=A_, contract=msg_get_contract("v@ == old(a).s.rule_id(Endpoint::%s)" % e))
+                    u.take_fn(kkw, "KeyKeeperSharedState::set_%s_rules" % n, external_body=True, ghost=A_, contract=set_rules_contract(e))
+                    u.take_fn(kkw, "KeyKeeperSharedState::get_%s_rules" % n, external_body=True, ghost=A_, contract=get_rules_contract(e))
+                # composite methods: verified. E4 on every call of a one-message method inside them (whatever it is after an edit)
+                ONE_MSG = ["set_key", "get_key", "set_secure_channel_state", "get_current_secure_channel_state"] + \
+                          ["%s_%s_rule_id" % (gs_, n) for gs_ in ("get", "set") for n in ("wireserver", "imds", "hostga")]
+
+                def gcalls(path):
+                    wit = kkw.item(path, "fn")
+                    names = sorted(set(c["callee"] for c in wit["calls"] if c["kind"] == "method" and c["callee"] in ONE_MSG))
+                    return [(n, "all", "Tracked(a)") for n in names]
+                for (n, e) in (("wireserver", "WireServer"), ("imds", "Imds"), ("hostga", "HostGA")):
+                    f = "update_%s_rule_id" % n
+                    u.take_fn(kkw, "KeyKeeperSharedState::" + f, ghost=A_, pre_body=WPRE, contract=rule_id_contract(e, f), ghost_calls=gcalls("KeyKeeperSharedState::" + f))
+                u.take_fn(kkw, "KeyKeeperSharedState::get_current_key_guid", ghost=A_, contract=KEY_GUID_CONTRACT, ghost_calls=gcalls("KeyKeeperSharedState::get_current_key_guid"))
+                u.take_fn(kkw, "KeyKeeperSharedState::update_key", ghost=FS_RO + ", " + H_RO + ", " + A_ + ", " + DIR_, contract=UPDATE_KEY_CONTRACT, ghost_calls=gcalls("KeyKeeperSharedState::update_key"))
+                u.take_fn(kkw, "KeyKeeperSharedState::clear_key", ghost=A_, contract=CLEAR_KEY_CONTRACT, ghost_calls=gcalls("KeyKeeperSharedState::clear_key"))
+                u.take_fn(kkw, "KeyKeeperSharedState::update_current_secure_channel_state", ghost=A_, pre_body=WPRE, contract=UPDATE_STATE_CONTRACT,
+                          ghost_calls=gcalls("KeyKeeperSharedState::update_current_secure_channel_state"))
     with u.mod("provision", uses="use crate::shared_state::agent_status_wrapper::AgentStatusSharedState;\nuse crate::shared_state::key_keeper_wrapper::KeyKeeperSharedState;\nuse crate::shared_state::provision_wrapper::ProvisionSharedState;\nuse crate::shared_state::telemetry_wrapper::TelemetrySharedState;\nuse tokio_util::sync::CancellationToken;"):
         u.take_fn(pv, "key_latched", external_body=True, ret="")
+        u.take_fn(pv, "key_latch_ready_state_reset", external_body=True, ret="")
     with u.mod("redirector", uses="use crate::shared_state::redirector_wrapper::RedirectorSharedState;"):
         for (f, e) in (("update_wire_server_redirect_policy", "WireServer"), ("update_imds_redirect_policy", "Imds"), ("update_hostga_redirect_policy", "HostGA")):
             u.take_fn(rl, f, external_body=True, ghost=RD_, contract=redirect_contract(e), ret="")
     with u.mod("key_keeper", uses=KK_USES):
-        for c in ("DISABLE_STATE", "MUST_SIG_WIRESERVER", "MUST_SIG_WIRESERVER_IMDS", "UNKNOWN_STATE"):
+        for c in ("DISABLE_STATE", "MUST_SIG_WIRESERVER", "MUST_SIG_WIRESERVER_IMDS", "UNKNOWN_STATE", "PROVISION_TIMEUP_IN_MILLISECONDS"):
             u.take(kk, c, "const")
         with u.mod("key", uses=KEY_USES + "\nuse hyper::Uri;"):
             u.take(key, "AUDIT_MODE", "const")
@@ -384,6 +484,20 @@ def build(u):
 """)
                 u._in_trait_impl = False
             u.take_fn(key, "get_status", external_body=True, ghost=H_, contract=GET_STATUS_CONTRACT)
+            # E5: the last two statements of get_status (`status.validate()?; Ok(status)`) justify `valid_status` in the stub above
+            git = key.item("get_status", "fn")
+            gl = [l for l in git["lets"] if key.s(*l["pat"]).split(":")[0].strip() == "status" and l["init"] is not None and "hyper_client::get" in key.s(*l["init"])]
+            if len(gl) != 1:
+                raise Undecided("get_status: `let status = hyper_client::get(..)` not found")
+            ga = gl[0]["span"][1]
+            if key.b[ga:ga + 1] == b";":
+                ga += 1
+            u.slice_fn(key, "get_status", "vx_get_status_tail", ga, git["body"][1] - 1, "status: KeyStatus", ret_type="Result<KeyStatus>",
+                       what="(the statements of get_status after the HTTP request: validate, then hand the document out)", contract="""
+        ensures
+            r is Ok ==> valid_status(status) && r->Ok_0 == status,  // @C09.get_status.only_a_valid_document_is_returned
+            !valid_status(status) ==> r is Err,  // @C09.get_status.invalid_document_is_an_error
+""")
             u.take_fn(key, "acquire_key", external_body=True, ghost=FS_RO + ", " + H_ + ", " + DIR_, contract=ACQUIRE_CONTRACT)
             u.take_fn(key, "attest_key", external_body=True, ghost=FS_RO + ", " + H_ + ", " + DIR_, contract=ATTEST_CONTRACT)
         u.take(kk, "KeyKeeper", "struct")
@@ -399,22 +513,83 @@ def build(u):
             a, _ = u.find_anchor(kk, lo_, hi_, "let status = match key::get_status(", None, "loop_poll")
             st = u.enclosing_stmt(it, a)
             lo, hi = st[0], hi_ - 1
-            gc = [("key::get_status", None, "Tracked(h)")]
+            def n_calls(name):
+                return len([c for c in it["calls"] if lo <= c["span"][0] and c["span"][1] <= hi and (c["callee"].replace(" ", "") == name or c["callee"].replace(" ", "").endswith("::" + name))])
+            gc = []
+
+            def every(name, extra):
+                # E4 on EVERY call of `name` in the slice (none, one or several: an edit that adds, removes or duplicates a
+                # call must reach the verifier, where the callee's precondition decides, instead of losing an anchor)
+                if n_calls(name) > 0:
+                    gc.append((name, "all", extra))
+            every("key::get_status", "Tracked(h)")
             for f in ("update_wireserver_rule_id", "update_imds_rule_id", "update_hostga_rule_id", "set_wireserver_rules", "set_imds_rules", "set_hostga_rules",
                       "get_current_key_guid", "update_current_secure_channel_state", "clear_key"):
-                gc.append((f, None, "Tracked(a)"))
+                every(f, "Tracked(a)")
             for f in ("redirector::update_wire_server_redirect_policy", "redirector::update_imds_redirect_policy", "redirector::update_hostga_redirect_policy"):
-                gc.append((f, None, "Tracked(rd)"))
+                every(f, "Tracked(rd)")
             for f in ("get_wireserver_rules", "get_imds_rules", "get_hostga_rules"):
                 gc.append((f, pick_call(kk, it, lo, hi, f, "key_keeper_shared_state"), "Tracked(a)"))
             for f in ("Self::fetch_key", "Self::store_key", "Self::check_key"):
-                gc.append((f, None, "Tracked(fs)"))
-            gc.append(("update_key", "all", "Tracked(fs), Tracked(h), Tracked(a), " + DIR_ARG))
-            gc.append(("key::acquire_key", None, "Tracked(fs), Tracked(h), " + DIR_ARG))
-            gc.append(("key::attest_key", None, "Tracked(fs), Tracked(h), " + DIR_ARG))
+                every(f, "Tracked(fs)")
+            every("update_key", "Tracked(fs), Tracked(h), Tracked(a), " + DIR_ARG)
+            every("key::acquire_key", "Tracked(fs), Tracked(h), " + DIR_ARG)
+            every("key::attest_key", "Tracked(fs), Tracked(h), " + DIR_ARG)
             u.slice_fn(kk, "KeyKeeper::loop_poll", "vx_poll_once", lo, hi, "&self, " + FS + ", " + A_ + ", " + H_ + ", " + RD_, ret_type="()", is_async=True,
                        replacements=[("continue;", "all", "return;")], ghost_calls=gc,
                        pre_body="broadcast use axiom_to_string_string, group_fmt, axiom_fmt_key_status, axiom_string_obeys_eq_spec, axiom_string_eq_spec;\nproof { lits_status(); lits_consts(); }\n",
                        tail="proof { h.completed = true; }\n",
                        contract=POLL_CONTRACT,
                        what="(loop body of loop_poll from the status request to the end; E5 drops: the sleep/notify select!, the provision time-up and event-thread start-up statements, get_notify and set_module_state(RUNNING) before the loop)")
+
+            # ---- (e) the only other place that writes key-keeper state: the `notified` arm of loop_poll's select! (E5c).
+            #      The then-block of its `if current_state == DISABLE_STATE || current_state == UNKNOWN_STATE` is lifted; the
+            #      else-block (provision::key_latched + remaining sleep) makes no key-keeper call of its own.
+            sel = [m for m in it["macros"] if m["name"] == "tokio::select"]
+            if len(sel) != 1:
+                raise Undecided("loop_poll: expected exactly one tokio::select!")
+            sa, sb = sel[0]["span"]
+            seltxt = kk.s(sa, sb)
+            mm = list(re.finditer(r"if\s+current_state\s*==\s*DISABLE_STATE\s*\|\|\s*current_state\s*==\s*UNKNOWN_STATE\s*\{", seltxt))
+            if len(mm) != 1:
+                raise Undecided("loop_poll: the notified arm no longer tests `current_state == DISABLE_STATE || current_state == UNKNOWN_STATE`")
+            code_sel = "\n".join(l for l in seltxt.split("\n") if not l.strip().startswith("//"))
+            if len(re.findall(r"key_keeper_shared_state\s*\.\s*\w+\s*\(", code_sel)) != 1 + len(re.findall(r"key_keeper_shared_state\s*\.\s*clone\s*\(", code_sel)):
+                raise Undecided("loop_poll: select! makes key-keeper calls other than the one in the lifted block")
+            bo, bc = brace_block(kk, sa + len(seltxt[:mm[0].start()].encode()))
+            blk = kk.s(bo, bc)
+            cm = list(re.finditer(r"\.update_current_secure_channel_state\(", blk))
+            if len(cm) != 1:
+                raise Undecided("loop_poll: the lifted block of the notified arm does not make exactly one update_current_secure_channel_state call")
+            depth, j = 0, cm[0].end() - 1
+            while True:
+                depth += {"(": 1, ")": -1}.get(blk[j], 0)
+                if depth == 0:
+                    break
+                j += 1
+            call_txt = blk[cm[0].start():j + 1]
+            u.rule("E4", "KeyKeeper::loop_poll[vx_notified_reset]: ghost argument at call 'update_current_secure_channel_state' (inside tokio::select!, not indexed by syn: textual)")
+            u.slice_fn(kk, "KeyKeeper::loop_poll", "vx_notified_reset", bo + 1, bc - 1,
+                       "&self, current_state: String, start_0: Instant, provision_timeup_0: bool, " + A_, ret_type="(Instant, bool)", is_async=True,
+                       replacements=[(call_txt, None, call_txt[:-1] + ", Tracked(a))")],
+                       pre_body="broadcast use group_fmt;\nproof { lits_status(); lits_consts(); }\nlet mut start = start_0; let mut provision_timeup = provision_timeup_0;\n",
+                       tail="(start, provision_timeup)\n",
+                       what="(then-block of the state test in the `notified` arm of the select!)",
+                       contract="""
+        ensures
+            !final(a).failed ==> final(a).s == (KkState { state: "Unknown"@, ..old(a).s }),  // @C09.notified.only_resets_the_channel_state_to_unknown
+            !final(a).failed && old(a).s.disabled_means_no_key() ==> final(a).s.disabled_means_no_key(),  // @C09.notified.disabled_means_no_key_preserved
+""")
+
+            # ---- (d) poll_secure_channel_status: the statements before the select! are verified as they are; the select!
+            #      itself (Verus crashes on tokio::select!, T18) is moved verbatim into a generated stub (E9 statement redirection)
+            pit = kk.item("KeyKeeper::poll_secure_channel_status", "fn")
+            psel = [m for m in pit["macros"] if m["name"] == "tokio::select"]
+            if len(psel) != 1:
+                raise Undecided("poll_secure_channel_status: expected exactly one tokio::select!")
+            pa, pb = psel[0]["span"]
+            seltext = kk.s(pa, pb)
+            u.take_fn(kk, "KeyKeeper::loop_poll", external_body=True, ret="")   # whole loop: stub (its body is covered by the two slices above)
+            u.take_fn(kk, "KeyKeeper::stop", external_body=True, ret="")
+            u.take_fn(kk, "KeyKeeper::poll_secure_channel_status", ret="", pre_body="broadcast use group_fmt;",
+                      e9=[((pa, pb), None, "this: &KeyKeeper", "self", "", "", dict(name="vx_e9_poll_select", is_async=True, body=re.sub(r"\bself\b", "this", seltext) + ";", local=True))])
